@@ -1,5 +1,8 @@
 """C16 - location scopes round-trip; location filtering tolerates foreign scopes (DESIGN.md section 4, C16)."""
 import json
+import subprocess
+import time
+from concurrent.futures import ThreadPoolExecutor
 import urllib.parse
 from collections import Counter
 
@@ -286,12 +289,12 @@ def run(ctx):
         ctx.broken('theorem', 'Props/C16.v', ctx.proof_error)
 
     hist = Counter()
-    rt_cases = [gen_loc(ctx.rng, n_el, hist) for _ in range(ctx.n(1500, 30000))]
+    rt_cases = [gen_loc(ctx.rng, n_el, hist) for _ in range(ctx.n(3000, 60000))]
     # corner cases always present
     rt_cases[:0] = [{'root': None, 'vals': [None] * n_el}, {'root': None, 'vals': [''] * n_el},
                     {'root': None, 'vals': ['a b+c&d=e;f#g?h/i%j', None, None, 'é\U0001F600', None, '%2F'][:n_el]}]
     pub_cases = []
-    for _ in range(ctx.n(700, 12000)):
+    for _ in range(ctx.n(1200, 20000)):
         target = gen_loc(ctx.rng, n_el, hist, with_root=False)
         c = {'vals': target['vals'], 'ident_root': 'keep', 'ident_ext': 'keep',
              'probes': [gen_probe(ctx.rng, target, n_el, hist) for _ in range(ctx.rng.randint(1, 4))]}
@@ -307,13 +310,12 @@ def run(ctx):
         pub_cases.insert(0, {'vals': vals, 'ident_root': 'keep', 'ident_ext': 'keep',
                              'probes': [{'root': None, 'vals': vals}, {'root': None, 'vals': [None] * n_el}]})
     fhist = Counter()
-    fo_cases = [gen_foreign(ctx.rng, consts, fhist) for _ in range(ctx.n(1500, 30000))]
+    fo_cases = [gen_foreign(ctx.rng, consts, fhist) for _ in range(ctx.n(3000, 60000))]
     # the two witnesses of DESIGN section 6 row 16 are always present
     fo_cases[:0] = [{'self': {'root': None, 'vals': [None] * n_el}, 'services': [['sdc.ctxt.loc:/a/b/c']]},
                     {'self': {'root': None, 'vals': [None] * n_el}, 'services': [['sdc.ctxt.loc://[x/a/b']]},
                     {'self': {'root': None, 'vals': [None] * n_el}, 'services': [['sdc.ctxt.loc://a℀b/x/y']]}]
 
-    import time
     t0 = time.time()
     impl = ctx.impl('c16_impl', {'roundtrip': rt_cases, 'published': pub_cases, 'foreign': fo_cases}, timeout=1200)
     ctx.log(f'implementation run: {time.time() - t0:.1f}s for {len(rt_cases)}+{len(pub_cases)}+{len(fo_cases)} cases')
@@ -321,8 +323,60 @@ def run(ctx):
         ctx.broken('correspondence', 'implementation run', impl['stderr'])
         return ctx.finish('implementation run crashed', [], [])
 
+    exe, log = ctx.ocaml_driver('Extract/Extract_Location.v', 'location_model', 'driver_c16')
+    if exe is None:
+        ctx.broken('correspondence', 'extraction/driver build', log[-1500:])
+    n_coq = ctx.n(120, 400)          # per stream: cases additionally evaluated inside Coq (cross-check of the extraction)
+
+    def compare(stream, items, eqb, runf, describe):
+        """items: list of dicts {line, want, lit_in, lit_out, info}.  Full volume through the extracted model,
+        the first n_coq through vm_compute inside Coq."""
+        if exe:
+            out = subprocess.run([exe], input='\n'.join(it['line'] for it in items) + '\n', capture_output=True,
+                                 text=True, timeout=1800)
+            got = out.stdout.splitlines()
+            if out.returncode != 0 or len(got) != len(items):
+                ctx.broken('correspondence', f'{stream} (extracted model run)', (out.stderr or out.stdout)[-800:])
+            else:
+                diffs = [i for i, (it, g) in enumerate(zip(items, got)) if it['want'] != g]
+                if diffs:
+                    i = diffs[0]
+                    ctx.broken('correspondence', stream, {'disagreements': len(diffs), 'of': len(items),
+                                                          'first': dict(describe(items[i]), model=got[i][:1500],
+                                                                        impl_canonical=items[i]['want'][:1500])})
+        sub = items[:n_coq]
+        coq_jobs.append((stream, sub, eqb, runf, describe))
+
+    def run_coq_job(job):
+        stream, sub, eqb, runf, describe = job
+        mism, err = ctx.coq_mism(stream.replace('-', ''), HEADER, eqb, runf, [(it['lit_in'], it['lit_out']) for it in sub],
+                                 deps=DEPS, shard=40)
+        return stream, sub, runf, describe, mism, err
+
+    coq_jobs = []
+
+    def hx(text):
+        return text.encode('utf-8').hex() or '-'
+
+    def hxo(text):
+        return '~' if text is None else hx(text)
+
+    def hxb(bs):
+        return bytes(bs).hex() or '-'
+
+    def hxbo(bs):
+        return '~' if bs is None else hxb(bs)
+
+    def loc_line(d):
+        return ' '.join([hx(default_root if d.get('root') is None else d['root'])] + [hxo(v) for v in d['vals']])
+
+    def parse_line(p):
+        if 'err' in p:
+            return 'S' if p['err'] == 'scheme' else 'V'
+        return 'O ' + hxb(p['root']) + ' ' + ' '.join(hxbo(v) for v in p['vals'])
+
     # ------------------------------------------------------------------ stream 1: round trip
-    lits, keys = [], []
+    items, keys = [], []
     n_claim = n_encode_err = 0
     for c, r in zip(rt_cases, impl['roundtrip']):
         if r['scope'] is None:            # quote() cannot encode (not generated: lone surrogates)
@@ -339,26 +393,21 @@ def run(ctx):
                          {'stream': 'roundtrip', 'clause': 'roundtrip', 'result': p.get('err', 'different-location')},
                          {'stream': 'roundtrip', 'case': c, 'impl_trace': r,
                           'oracle': {'verdict': 'fail', 'clause': 'from_scope_string(l.scope_string) == l'}})
-        lits.append((loclit(c, default_root), f'({bl(r["scope"])}, {parse_lit(r["parse"])})', c, r))
+        items.append({'line': 'R ' + loc_line(c), 'want': hxb(r['scope']) + ' ' + parse_line(r['parse']),
+                      'lit_in': loclit(c, default_root), 'lit_out': f'({bl(r["scope"])}, {parse_lit(r["parse"])})',
+                      'case': c, 'impl': {'text': r['text'], 'parse': r['parse']}})
         keys.append(r['text'])
-    mism, err = ctx.coq_mism('roundtrip', HEADER, 'prod_eqb bytes_eqb parse_res_eqb', f'run_roundtrip {K}',
-                             [(a, b_) for a, b_, *_ in lits], deps=DEPS)
-    if err:
-        ctx.broken('correspondence', 'roundtrip (coq evaluation)', err)
-    for i in mism[:1]:
-        _, _, c, r = lits[i]
-        ctx.broken('correspondence', 'roundtrip',
-                   {'disagreements': len(mism), 'first': {'case': c, 'impl': {'text': r['text'], 'parse': r['parse']},
-                                                          'model': ctx.coq_eval(HEADER, f'run_roundtrip {K} {lits[i][0]}')[-1500:]}})
-    ctx.log(f'roundtrip stream compared: {time.time() - t0:.1f}s')
-    ctx.count('roundtrip', len(lits), keys, claim_applies=n_claim, encode_errors=n_encode_err,
-              parse_outcomes=dict(Counter(r['parse'].get('err', 'ok') for *_, r in lits)))
+    compare('roundtrip', items, 'prod_eqb bytes_eqb parse_res_eqb', f'run_roundtrip {K}',
+            lambda it: {'case': it['case'], 'impl': it['impl']})
+    ctx.count('roundtrip', len(items), keys, claim_applies=n_claim, encode_errors=n_encode_err,
+              parse_outcomes=dict(Counter(it['impl']['parse'].get('err', 'ok') for it in items)))
     ctx.sample({'stream': 'roundtrip', 'case': rt_cases[2], 'scope': impl['roundtrip'][2].get('text'),
                 'parse': impl['roundtrip'][2].get('parse')})
 
     # ------------------------------------------------------------------ stream 2: published scope vs. enclosing locations
-    lits, keys = [], []
+    items, keys = [], []
     verdicts = Counter()
+    n_claim = 0
     for c, r in zip(pub_cases, impl['published']):
         target = {'root': None, 'vals': c['vals']}
         if r['state'].startswith('mk_scopes-raise'):
@@ -366,7 +415,7 @@ def run(ctx):
             continue
         badl = []
         if r['state'] == 'ok':
-            badl = [s for s, v in zip(r['scopes'], r['split']) if v == 'bad']
+            badl = [s_ for s_, v in zip(r['scopes'], r['split']) if v == 'bad']
             plain = c['ident_root'] == 'keep' and c['ident_ext'] == 'keep'
             for p, row in zip(c['probes'], r['inside']):
                 for text, got in zip(r['texts'], row):
@@ -379,6 +428,7 @@ def run(ctx):
                         continue
                     if not plain or not nonempty_fields(target):
                         continue
+                    n_claim += 1
                     want = (p['root'] in (None, consts['ident_root'])) and \
                         all(pv is None or pv == tv for pv, tv in zip(p['vals'], c['vals']))
                     if got != want:
@@ -387,35 +437,37 @@ def run(ctx):
                                  {'stream': 'published', 'clause': 'inside' if want else 'not-inside'},
                                  {'stream': 'published', 'case': c, 'probe': p, 'scope': text, 'impl_trace': r,
                                   'oracle': {'verdict': 'fail', 'clause': 'inside iff every specified element equal'}})
-            exp = ('(Some ([' + '; '.join(bl(s) for s in r['scopes']) + '], [' +
+            exp = ('(Some ([' + '; '.join(bl(s_) for s_ in r['scopes']) + '], [' +
                    '; '.join('[' + '; '.join('None' if isinstance(g, str) else f'(Some {coqlit(g)})' for g in row) + ']'
                              for row in r['inside']) + ']))')
+            want_line = (f'Y {len(r["scopes"])}' + ''.join(' ' + hxb(s_) for s_ in r['scopes']) +
+                         ''.join(' |' + ''.join(' E' if isinstance(g, str) else (' T' if g else ' F') for g in row)
+                                 for row in r['inside']))
         else:
             exp = '(None : option (list bytes * list (list (option bool))))'
+            want_line = 'N'
 
         def ovr(x):
             return '(@None (option bytes))' if x == 'keep' else f'(Some {oblit(x)})'
+
+        def ovr_tok(x):
+            return 'k' if x == 'keep' else hxo(x)
         inp = (f'({loclit(target, default_root)}, {ovr(c["ident_root"])}, {ovr(c["ident_ext"])}, '
-               f'[{"; ".join(loclit(p, default_root) for p in c["probes"])}], ([{"; ".join(bl(s) for s in badl)}] : list bytes))')
-        lits.append((inp, exp, c, r))
+               f'[{"; ".join(loclit(p, default_root) for p in c["probes"])}], ([{"; ".join(bl(s_) for s_ in badl)}] : list bytes))')
+        line = ' '.join(['P', loc_line(target), ovr_tok(c['ident_root']), ovr_tok(c['ident_ext']), str(len(c['probes']))] +
+                        [loc_line(p) for p in c['probes']] + [str(len(badl))] + [hxb(s_) for s_ in badl])
+        items.append({'line': line, 'want': want_line, 'lit_in': inp, 'lit_out': exp, 'case': c,
+                      'impl': {k_: r.get(k_) for k_ in ('state', 'texts', 'inside')}})
         keys.append(json.dumps(c, sort_keys=True))
     eqb = ('option_eqb (prod_eqb (list_eqb bytes_eqb) (list_eqb (list_eqb (option_eqb Bool.eqb))))')
     runf = (f"fun c => let '(l, orr, oe, probes, badl) := c in run_published {K} true badl l orr oe probes")
-    mism, err = ctx.coq_mism('published', HEADER, eqb, runf, [(a, b_) for a, b_, *_ in lits], deps=DEPS)
-    if err:
-        ctx.broken('correspondence', 'published (coq evaluation)', err)
-    for i in mism[:1]:
-        inp, _, c, r = lits[i]
-        ctx.broken('correspondence', 'published',
-                   {'disagreements': len(mism), 'first': {'case': c, 'impl': {k: r.get(k) for k in ('state', 'texts', 'inside')},
-                                                          'model': ctx.coq_eval(HEADER, f'({runf}) {inp}')[-1500:]}})
-    ctx.log(f'published stream compared: {time.time() - t0:.1f}s')
-    ctx.count('published', len(lits), keys, verdicts=dict(verdicts),
-              state_raises=sum(1 for *_, r in lits if r['state'] == 'raise'))
-    ctx.sample({'stream': 'published', 'case': pub_cases[0], 'impl': {k: impl['published'][0].get(k) for k in ('state', 'texts', 'inside')}})
+    compare('published', items, eqb, runf, lambda it: {'case': it['case'], 'impl': it['impl']})
+    ctx.count('published', len(items), keys, verdicts=dict(verdicts), oracle_claims=n_claim,
+              state_raises=sum(1 for it in items if it['impl']['state'] == 'raise'))
+    ctx.sample({'stream': 'published', 'case': pub_cases[-1], 'impl': {k_: impl['published'][-1].get(k_) for k_ in ('state', 'texts', 'inside')}})
 
     # ------------------------------------------------------------------ stream 3: foreign scopes into the filter
-    lits, keys, plits = [], [], []
+    items, keys, pitems = [], [], []
     n_oom = n_raise = 0
     kept_hist = Counter()
     pkinds = Counter()
@@ -439,7 +491,10 @@ def run(ctx):
                 p = r['parse'][t]
                 pkinds[p.get('err', 'ok') + ('' if r['split'][t] == 'ok' else '/' + r['split'][t])] += 1
                 if r['clean'][t]:
-                    plits.append((f'(([{blit(t) if r["split"][t] == "bad" else ""}] : list bytes), {blit(t)})', parse_lit(p), t, p))
+                    bad = r['split'][t] == 'bad'
+                    pitems.append({'line': f'X {int(bad)} {hx(t)}', 'want': parse_line(p),
+                                   'lit_in': f'(([{blit(t) if bad else ""}] : list bytes), {blit(t)})',
+                                   'lit_out': parse_lit(p), 'scope': t, 'impl': p})
         if not clean:
             n_oom += 1
             continue
@@ -447,39 +502,44 @@ def run(ctx):
         svl = '[' + '; '.join('None' if sc is None else '(Some [' + '; '.join(blit(t) for t in sc) + '])'
                               for sc in c['services']) + ']'
         inp = f'({loclit(c["self"], default_root)}, ({svl} : list service), ([{"; ".join(blit(t) for t in badl)}] : list bytes))'
+
+        def sv_tok(sc):
+            return '~' if sc is None else ','.join([str(len(sc))] + [hx(t) for t in sc])
         if isinstance(r['kept'], str):
             exp = '(None : option (list service))'
+            want_line = 'E'
         else:
             exp = '(Some [' + '; '.join('(None : service)' if c['services'][i] is None else
                                          '(Some [' + '; '.join(blit(t) for t in c['services'][i]) + '])'
                                          for i in r['kept']) + '] : option (list service))'
-        lits.append((inp, exp, c, r))
+            want_line = 'K' + ''.join(' ' + sv_tok(c['services'][i]) for i in r['kept'])
+        line = ' '.join(['F', loc_line(c['self']), str(len(c['services']))] +
+                        [('~' if sc is None else ' '.join([str(len(sc))] + [hx(t) for t in sc])) for sc in c['services']] +
+                        [str(len(badl))] + [hx(t) for t in badl])
+        items.append({'line': line, 'want': want_line, 'lit_in': inp, 'lit_out': exp, 'case': c,
+                      'impl': {'kept': r['kept'], 'parse': r['parse']}})
         keys.append(json.dumps(c, sort_keys=True))
     runf = f"fun c => let '(me, svs, badl) := c in run_foreign {K} true badl me svs"
-    mism, err = ctx.coq_mism('foreign', HEADER, 'option_eqb (list_eqb service_eqb)', runf,
-                             [(a, b_) for a, b_, *_ in lits], deps=DEPS)
-    if err:
-        ctx.broken('correspondence', 'foreign (coq evaluation)', err)
-    for i in mism[:1]:
-        inp, _, c, r = lits[i]
-        ctx.broken('correspondence', 'foreign',
-                   {'disagreements': len(mism), 'first': {'case': c, 'impl': {'kept': r['kept'], 'parse': r['parse']},
-                                                          'model': ctx.coq_eval(HEADER, f'({runf}) {inp}')[-1500:]}})
-    ctx.log(f'foreign stream compared: {time.time() - t0:.1f}s')
-    ctx.count('foreign', len(fo_cases), keys, compared_with_model=len(lits), out_of_model_invalid_utf8=n_oom,
+    compare('foreign', items, 'option_eqb (list_eqb service_eqb)', runf, lambda it: {'case': it['case'], 'impl': it['impl']})
+    ctx.count('foreign', len(fo_cases), keys, compared_with_model=len(items), out_of_model_invalid_utf8=n_oom,
               impl_raised=n_raise, kept_histogram={str(k_): v for k_, v in sorted(kept_hist.items())},
               generator_histogram=dict(sorted(fhist.items())))
     runp = f"fun c => run_parse {K} (fst c) (snd c)"
-    mism, err = ctx.coq_mism('foreignparse', HEADER, 'parse_res_eqb', runp, [(a, b_) for a, b_, *_ in plits], deps=DEPS)
-    if err:
-        ctx.broken('correspondence', 'foreign-parse (coq evaluation)', err)
-    for i in mism[:1]:
-        inp, _, t, p = plits[i]
-        ctx.broken('correspondence', 'foreign-parse',
-                   {'disagreements': len(mism), 'first': {'scope': t, 'impl': p,
-                                                          'model': ctx.coq_eval(HEADER, f'({runp}) {inp}')[-1500:]}})
-    ctx.count('foreign-parse', len(plits), [t for _, _, t, _ in plits], parse_outcomes=dict(sorted(pkinds.items())),
-              distinct_scopes=len(seen_scopes), out_of_model_invalid_utf8=len(seen_scopes) - len(plits))
+    compare('foreign-parse', pitems, 'parse_res_eqb', runp, lambda it: {'scope': it['scope'], 'impl': it['impl']})
+    ctx.count('foreign-parse', len(pitems), [it['scope'] for it in pitems], parse_outcomes=dict(sorted(pkinds.items())),
+              distinct_scopes=len(seen_scopes), out_of_model_invalid_utf8=len(seen_scopes) - len(pitems))
+    # the same models evaluated inside Coq on the head of every stream (ties the extracted code to the .v files)
+    ctx.coq_make(['Common/Corr.vo'] + DEPS)
+    with ThreadPoolExecutor(max_workers=4) as ex:
+        for stream, sub, runf, describe, mism, err in ex.map(run_coq_job, coq_jobs):
+            if err:
+                ctx.broken('correspondence', f'{stream} (coq evaluation)', err)
+            for i in mism[:1]:
+                ctx.broken('correspondence', f'{stream} (inside Coq)',
+                           {'disagreements': len(mism), 'of': len(sub),
+                            'first': dict(describe(sub[i]), model=ctx.coq_eval(HEADER, f'({runf}) {sub[i]["lit_in"]}')[-1500:])})
+            ctx.cov['streams'][stream]['also_evaluated_inside_coq'] = len(sub)
+    ctx.log(f'coq cross-check done, t={time.time() - t0:.1f}s')
     ctx.cov['generator_histogram'] = dict(sorted(hist.items()))
     k = next((i for i, r in enumerate(impl['foreign']) if not isinstance(r['kept'], str) and r['kept']), 0)
     ctx.sample({'stream': 'foreign', 'case': fo_cases[k], 'kept': impl['foreign'][k]['kept']})
